@@ -13,7 +13,7 @@ from .core import HarnessError
 
 
 class ThreadRun:
-    def __init__(self, bodies, env, prefix_dirs, horizon=200000):
+    def __init__(self, bodies, env, prefix_dirs, horizon=200000, granularity='line', name_prefixes=None):
         self.bodies = bodies
         self.env = env
         self.prefixes = tuple(prefix_dirs)
@@ -25,6 +25,8 @@ class ThreadRun:
         self.points = 0
         self.switches = 0
         self.horizon = horizon
+        self.granularity = granularity      # 'line': a switch is possible at every source line; 'call': at every function entry
+        self.name_prefixes = tuple(name_prefixes) if name_prefixes else None    # only functions whose name starts like this are scheduling points
         self.error = None
         self.interleaved = False
         self._last = None
@@ -41,6 +43,11 @@ class ThreadRun:
 
         def glob(frame, event, arg):
             if event == 'call' and frame.f_code.co_filename.startswith(prefixes):
+                if self.name_prefixes is not None and not frame.f_code.co_name.startswith(self.name_prefixes):
+                    return None
+                if self.granularity == 'call':
+                    self.point(tid)
+                    return None
                 return local
             return None
         return glob
@@ -103,7 +110,7 @@ class ThreadRun:
         return self.results
 
 
-def run_threads(bodies, env, prefix_dirs):
-    r = ThreadRun(bodies, env, prefix_dirs)
+def run_threads(bodies, env, prefix_dirs, granularity='line', name_prefixes=None):
+    r = ThreadRun(bodies, env, prefix_dirs, granularity=granularity, name_prefixes=name_prefixes)
     res = r.run()
     return res, r
